@@ -25,7 +25,7 @@ __CPROVER_assigns(g_gb_n);
 #define REMPTY(r) (!((r).left < (r).right && (r).top < (r).bottom))
 //@extract file=CPP/Clipper2Lib/src/clipper.engine.cpp func=ClipperBase::CheckBounds self=ClipperBase selfcalls=CleanCollinear ifndef=BOUNDED
 //@sub /outrec->bounds\.IsEmpty\(\)/Rect_IsEmpty(&outrec->bounds)/
-//@sub /BuildPath64\(outrec->pts, self->reverse_solution_, false, outrec->path\)/BuildPath64(outrec->pts, self->reverse_solution_, false, &outrec->path)/
+//@sub /BuildPath64\(([^;]*?), outrec->path\)/BuildPath64(\1, &outrec->path)/
 __CPROVER_requires(__CPROVER_is_fresh(self, sizeof(*self)) && __CPROVER_is_fresh(outrec, sizeof(*outrec)) && g_cc_n == 0 && g_bp_n == 0 && g_gb_n == 0 && g_seq == 0)
 __CPROVER_requires(BOOL_OK(self->reverse_solution_) && BOOL_OK(g_bp_ret))
 __CPROVER_ensures(__CPROVER_old(outrec->pts) == NULL ==> (!__CPROVER_return_value && g_cc_n == 0 && g_bp_n == 0))
